@@ -366,6 +366,10 @@ class Execution:
                     ev["fault"] = {"when": "before", "err": fault["err"]}
                     if self.first_failure_api is None:
                         self.first_failure_api = self.api_n
+                    if fault.get("delay_ms"):  # the failing request stays in flight for a while
+                        dseq += 1
+                        heapq.heappush(delayed, (time.monotonic() + fault["delay_ms"] / 1000.0, dseq, mid, ("raise", fault["err"])))
+                        return
                     respond(mid, ("raise", fault["err"]))
                     return
                 seq0 = self.backend.seq
@@ -397,6 +401,10 @@ class Execution:
                     ev["fault"] = {"when": "after", "err": fault["err"]}
                     if self.first_failure_api is None:
                         self.first_failure_api = self.api_n
+                    if fault.get("delay_ms"):
+                        dseq += 1
+                        heapq.heappush(delayed, (time.monotonic() + fault["delay_ms"] / 1000.0, dseq, mid, ("raise", fault["err"])))
+                        return
                     respond(mid, ("raise", fault["err"]))
                     return
                 out = ("ok", resp)
